@@ -71,7 +71,7 @@ def gen_plan(seed, tier="quick", variant=None):
             elif r < 0.25:
                 apiv[str(n)] = "none-silent"
     timeout_ms = 5000 if clean else rng.choice([300, 1000, 5000])
-    batch = rng.random() < 0.6
+    batch = rng.random() < (0.85 if clean else 0.6)
     pc = {
         "acks": rng.choice([1, 1, -1, 0]),
         "batch_send": batch,
@@ -84,6 +84,10 @@ def gen_plan(seed, tier="quick", variant=None):
         "partitioner": rng.choice(["rr", "rr", "rr_random", "hashed"]),
         "ack_timeout": rng.choice([100, 1000]),
     }
+    if clean and batch and rng.random() < 0.6:
+        pc["every_n"] = rng.choice([3, 4, 6, 10])
+        pc["every_b"] = rng.choice([0, 0, 2000])
+        pc["every_t"] = rng.choice([None, 1.0, 2.0])
     if batch and not pc["every_n"] and not pc["every_b"] and not pc["every_t"]:
         pc["every_t"] = 0.3
     cfg = {
@@ -120,6 +124,11 @@ def gen_plan(seed, tier="quick", variant=None):
         ops.append({"t": round(rng.random() * horizon, 6), "op": "send", "id": i, "topic": topic, "key": key, "msgs": msgs})
     for _ in range(rng.choice([0, 0, 1, 2, 3])):
         ops.append({"t": round(rng.random() * horizon * 1.2, 6), "op": "cancel", "id": rng.randint(0, nsend - 1)})
+    if clean:
+        # cancels that land while the send is still queued (right after it was issued)
+        for _ in range(rng.choice([0, 1, 2, 3])):
+            victim = rng.choice([o for o in ops if o["op"] == "send"])
+            ops.append({"t": round(victim["t"] + rng.choice([0.0, 0.0001, 0.002]), 6), "op": "cancel", "id": victim["id"]})
     for _ in range(rng.choice([0, 0, 1, 2])):
         ops.append({"on": rng.randint(0, 4), "delay": round(rng.choice([0.0, 0.0002, 0.002, 0.02]), 6), "op": "cancel",
                     "id": rng.randint(0, nsend - 1)})
@@ -133,7 +142,7 @@ def gen_plan(seed, tier="quick", variant=None):
         nf = rng.choice([0, 1, 2, 3, 5])
         for _ in range(nf):
             kind = rng.choice(["error", "error", "error_persist", "error_after_apply", "silent", "cut_before", "cut_mid",
-                               "cut_after", "delay", "move_leader", "meta_error", "refuse", "broker_bounce", "stale"])
+                               "cut_after", "delay", "move_leader", "meta_error", "refuse", "broker_bounce", "stale", "add_partitions", "add_partitions"])
             node = rng.choice([None] + list(range(1, nb + 1)))
             if kind in ("error", "error_persist", "error_after_apply"):
                 f = {"api": 0, "node": node, "nth": rng.randint(0, 5), "act": "error" if kind != "error_after_apply" else "error_after_apply",
@@ -172,6 +181,10 @@ def gen_plan(seed, tier="quick", variant=None):
                     up["host"] = "b%dx" % n
                     up["port"] = 9192
                 faults.append(up)
+            elif kind == "add_partitions":
+                faults.append({"t": round(rng.random() * horizon, 6), "act": "add_partitions", "topic": rng.choice(topics)["name"], "n": rng.randint(1, 3)})
+                # the client learns of them when its cache is invalidated: a NotLeader answer does that
+                faults.append({"api": 0, "node": None, "nth": rng.randint(1, 4), "act": "error", "code": 6})
             elif kind == "stale" and nb > 1:
                 n = rng.randint(1, nb)
                 t0 = round(rng.random() * horizon, 6)
@@ -567,7 +580,10 @@ def _run(w, plan):
         if v.error != 0:
             res.violate("C01", "C01:success-with-error-code", "send %d succeeded with %r" % (sid, v))
             continue
-        if v.topic != s["topic"] or v.partition not in range(topics_parts.get(s["topic"], 0) + 8):
+        known_parts = set(range(topics_parts.get(s["topic"], 0)))
+        if s["topic"] in cl.topics:
+            known_parts |= set(cl.topics[s["topic"]].partitions)  # partitions may have been added during the run
+        if v.topic != s["topic"] or v.partition not in known_parts:
             res.violate("C01", "C01:result-names-wrong-partition", "send %d: %r" % (sid, v))
             continue
         cands = applied_by_tp.get((v.topic, v.partition), [])
@@ -680,7 +696,9 @@ def _run(w, plan):
                 continue
             res.oblige("C18")
             c, chosen = first
-            versions = [v for q, v in tp_versions.get(s["topic"], []) if q <= c["seq"] + 1]
+            versions = [v for q, v in tp_versions.get(s["topic"], []) if s["seq"] <= q <= c["seq"] + 1]
+            before = [v for q, v in tp_versions.get(s["topic"], []) if q < s["seq"]]
+            versions = before[-1:] + versions
             snap = c["tp_snapshot"].get(s["topic"])
             cand = set()
             for v in ([snap] if snap else []) + versions[-3:]:
@@ -688,11 +706,18 @@ def _run(w, plan):
                     cand.add(java_partition(s["key"], list(v)))
             # a list may have been held only inside one event (two metadata answers in one delivery): every list a
             # metadata answer delivered to this client before the call carried for the topic is a candidate too
+            latest_before_send = None
             for e in cl.reqlog:
                 if e["key"] == kwire.METADATA and e.get("delivered_seq") is not None and e["delivered_seq"] <= c["seq"] and e.get("resp_body"):
                     for t in e["resp_body"]["topics"]:
                         if t["name"] == s["topic"] and t["partitions"]:
-                            cand.add(java_partition(s["key"], sorted(p["id"] for p in t["partitions"])))
+                            lst = sorted(p["id"] for p in t["partitions"])
+                            if e["delivered_seq"] <= s["seq"]:
+                                latest_before_send = lst  # the most recent one as the send was issued
+                            else:
+                                cand.add(java_partition(s["key"], lst))  # arrived between send and dispatch
+            if latest_before_send is not None:
+                cand.add(java_partition(s["key"], latest_before_send))
             if chosen not in cand:
                 res.violate("C18", "C18:hashed-partition-differs-from-java", "send %d key %r -> partition %d, Java client: %r (lists %r)" % (
                     sid, s["key"], chosen, sorted(cand), versions[-2:]))
